@@ -44,9 +44,47 @@ Theorem C15_json_model_is_codec :
 Proof. exact roundtrip_json_model. Qed.
 Print Assumptions C15_json_model_is_codec.
 
-(* all four types at once, as the function the check evaluates *)
+(* generic: the tabwriter leaves legal elements without a form feed untouched
+   (0xff, its escape byte, included) *)
+Theorem C15_write_generic_legal : forall xs,
+  forallb (legal_elem TGeneric) xs = true -> forallb no_ff xs = true ->
+  write_generic xs = Some (write_lines xs).
+Proof. exact write_generic_legal. Qed.
+Print Assumptions C15_write_generic_legal.
+
+(* F15-3 (known finding 3): a form feed — legal by the property's alphabet — is
+   written as a line break *)
+Theorem C15_generic_formfeed_refuted :
+  forallb (legal_elem TGeneric) [[97; 12; 98]]%N = true /\
+  roundtrip TGeneric [[97; 12; 98]]%N = Some ([[97]; [98]]%N, false, false).
+Proof. exact generic_ff_refuted. Qed.
+Print Assumptions C15_generic_formfeed_refuted.
+
+(* paths: join with `:` / split at `:` *)
+Theorem C15_array_roundtrip_paths : forall xs, xs <> [] -> forallb no_colon xs = true ->
+  split_colon (join_colon xs) = xs.
+Proof. exact roundtrip_paths. Qed.
+Print Assumptions C15_array_roundtrip_paths.
+
+(* F15-4 (known finding 4): the empty list comes back as one empty element *)
+Theorem C15_paths_empty_refuted : roundtrip TPaths [] = Some ([[]], false, false).
+Proof. exact paths_empty_refuted. Qed.
+Print Assumptions C15_paths_empty_refuted.
+
+(* yaml (writer after the fix): the YAML library's scalar encoder and decoder
+   enter as named hypotheses, every list round-trips *)
+Theorem C15_array_roundtrip_yaml :
+  forall (yscalar : bytes -> bytes) (ydec : bytes -> option (list bytes)),
+  (forall xs, xs <> [] -> ydec (write_yaml yscalar xs) = Some xs) ->
+  (forall xs, xs <> [] -> crlf_trim (write_yaml yscalar xs) <> []) ->
+  forall xs, read_yaml ydec (write_yaml yscalar xs) = (xs, false).
+Proof. exact roundtrip_yaml. Qed.
+Print Assumptions C15_array_roundtrip_yaml.
+
+(* all six modelled types at once, as the function the check evaluates; `extra`
+   is the exact guard excluding findings 3 and 4 *)
 Theorem C15_roundtrip_legal : forall t xs, main_ty t ->
-  forallb (legal_elem t) xs = true ->
+  forallb (legal_elem t) xs = true -> extra t xs = true ->
   roundtrip t xs = Some (xs, match t, xs with TJson, [] => true | _, _ => false end, false).
 Proof. exact roundtrip_legal. Qed.
 Print Assumptions C15_roundtrip_legal.
@@ -74,7 +112,7 @@ Print Assumptions C15_foreach_refuted.
 Theorem C15_model_meets_spec : forall t cin docs,
   main_ty t ->
   let xs := map expand cin in
-  forallb nonempty xs = true ->
+  forallb nonempty xs = true -> extra t xs = true ->
   forall ob, model_obs t xs = Some ob ->
   spec_ok {| c_ty := t; c_in := cin; c_legal_other := true; c_docs := docs; c_obs := ob |} = true.
 Proof. exact model_meets_spec. Qed.
@@ -91,7 +129,8 @@ Theorem C15_legal_sharp :
   rt_differs TStr [N.iter 65536 (cons 120%N) []] = true /\
   rt_differs TGeneric [N.iter 65536 (cons 120%N) []] = true /\
   rt_differs TStr [N.iter 65535 (cons 120%N) []] = false /\
-  rt_differs TJson [[97; 255]]%N = true.
+  rt_differs TJson [[97; 255]]%N = true /\
+  rt_differs TPaths [[97; 58; 98]]%N = true.
 Proof. exact legal_sharp. Qed.
 Print Assumptions C15_legal_sharp.
 
